@@ -2,7 +2,8 @@
 ENGINES = [
     dict(name="E4 p2p", path="harness/t_p2p, harness/votel", serves_properties=["C12", "C16", "C18", "C20"], kind_free_text="in-process libp2p (mocknet) with real servers/clients/pollers/subscribers/chain exchange, raw stream readers, scripted Byzantine responder, OpenTelemetry gauge rendez-vous for the polling loop"),
     dict(name="E6 inputs", path="harness/vec, harness/t_inputs, harness/t_sim", serves_properties=["C15", "C19"], kind_free_text="explicit EC block-tree model behind ec.Backend, manifest/certificate-history generators; simulator fault injection through adversary.Generator"),
-    dict(name="E1 vnet", path="harness/vnet, harness/t_net", serves_properties=["C01", "C02", "C03", "C06", "C07"], kind_free_text="consensus world: real participants behind harness hosts, virtual clock, generated scheduler with six profiles, adaptive Byzantine coalition using an evidence pool, runtime monitors, timely closing regime"),
+    dict(name="E1 vnet", path="harness/vnet, harness/t_net", serves_properties=["C01", "C02", "C03", "C06", "C07"], kind_free_text="consensus world: real participants behind harness hosts, virtual clock, generated scheduler with fourteen profiles (incl. rotating laggard, generated rule sets, two-faced coalition), validate-then-queue deliveries, adaptive Byzantine coalition using an evidence pool (equivocation, stale evidence, supplemental-data variants, poison-next-instance, forged floods, greedy decider), runtime monitors, timely closing regime with stall detector; solo engine: one real participant under a non-equivocating puppet committee (ledger-backed justifications)"),
+    dict(name="E7 cluster", path="harness/t_p2p/cluster_test.go", serves_properties=["C03", "C15"], kind_free_text="1-3 real F3 nodes end to end (gpbft runner, gossipsub, partial messages + chain exchange, certificate exchange, WAL, certificate store) over an EC model that follows a mock clock, generated manifests, optional node restart; state-based oracle on the certificates the nodes stored"),
     dict(name="E3 store", path="harness/vds, harness/t_store", serves_properties=["C09", "C10", "C11", "C17"], kind_free_text="deterministic fault-injecting datastore (write counting, crash after k writes, snapshot/restore, permutable query order) + rapid state machines against an in-memory store model"),
     dict(name="E2 structured", path="harness/t_certs, harness/t_msgs, harness/t_codec", serves_properties=["C04", "C05", "C13", "C14"], kind_free_text="grammar-directed rapid generators (vgen) + field-level corruption operators, differential against reference models (vref)"),
     dict(name="E5 arith", path="harness/t_arith", serves_properties=["C08"], kind_free_text="exhaustive loops + rapid generators over big-integer power tables and real tallies"),
@@ -132,4 +133,25 @@ TEXT = {
         level_text="Exhaustive over all 2^31 (part, whole) pairs of the scaled-power domain for the threshold, weak-quorum and intersection facts; generated exploration for int64 overflow, power-table scaling (order, range, sum, agreement between PowerEntries.Scaled, PowerTable.Add and an independent big-integer floor) and for real tallies fed votes of known weight (could-reach soundness by brute force). Exhaustive is the right level where the domain is finite; the rest is sampled because tables and vote histories are unbounded.",
         level_note="Trusts Go integer arithmetic and math/big; tables are well-formed as PowerTable.Add requires. The unexported predicates are reached through build-time injected accessors (tag verif).",
     ),
+}
+
+
+# Additions made while working through independently seeded changes (appended to level_text).
+ADDENDA = {
+    "C01": " Added: profiles rotlag / rules / laggard variants, validate-then-queue deliveries (host queue model), coalition replaying stale evidence and sending supplemental-data variants, DECIDE-level greedy decider (every decidable value is turned into a real decision of some undecided participant), forged DECIDE floods with repetition.",
+    "C02": " Added: rotating-laggard profile with a coalition that keeps pushing one foreign chain with genuine COMMIT-bottom evidence; an honest participant with a diverged base view (same key and epoch, other power-table CID) in 12% of worlds; validate-then-queue deliveries.",
+    "C03": " Added: solo engine (one real participant under a non-equivocating puppet committee, decisions checked as proofs); supplemental-data variants of coalition votes; cluster engine: 1-3 real F3 nodes end to end, the certificates stored by the host's own decision path (committees, delta, self-validation, Put) are validated with the reference and the production validator and compared across nodes; a node that terminated an instance must hold its certificate.",
+    "C06": " Added: up to 3 instances, coalition action poison-next-instance (queued round-0 vote that fails late-binding validation), stall detector in the closing phase (decided participants have nothing in flight and for longer than any phase timeout of the rounds reached nothing changed).",
+    "C07": " Added: solo engine (single votes, quorum bursts, advance, lure actions; skips in 44% and sways in 21% of cases, all non-defensive branches of the state machine covered), scripted regression scenarios for the two gpbft fixes, diverged-base participant, validate-then-queue deliveries.",
+    "C08": " Added: powers of every bit length 1..130 with extra weight at machine-word boundaries; every table also built by several Add calls in a generated order (consistency after every call, equality with the table built at once).",
+    "C09": " Added: long histories through the public API (1026-1700 certificates in quick, to 4500 in thorough): power tables at offsets 1022-1027 and 1438/1439 past every stored table, ranges of length 1023-1441 and ranges running past the end, both reopen variants.",
+    "C10": " Added: CreateStore as a third way of reopening the surviving map (refused while a store exists; otherwise a fresh store that keeps a certificate across the next restart).",
+    "C11": " Added: the model learns which file received an entry from the directory (no mirror of the rotation rule); histories continue from a tail torn strictly inside a record (appends, rotations, purges and restarts behind it).",
+    "C12": " Added: node action torn-crash-restart (a strict prefix of a record left at the end of the newest WAL file before an abrupt restart); after a restart half of the requests conflict with an earlier request of the same slot; rounds {0,1,5,6,7,13}.",
+    "C14": " Added: overlimit operator (an independent CBOR walker locates every array/map/string header of a valid encoding; one is replaced by a header announcing 2^31..2^64-1: decoding must fail); JSON round trips of tipsets, chains, supplemental data, payloads and certificates; boundary-size chains (100-128 tipsets with 760-byte keys).",
+    "C15": " Added: metamorphic deep-reorg variant (the EC view forks off before the bootstrap tipset while certificates are stored); cluster engine: certificates stored by real nodes must start at the previous head, run along EC parent links with EC's table CIDs, carry the delta between the node-rule committees and commit to the next one.",
+    "C16": " Added: stores with an orphan certificate above the latest pointer; certificates put into the poller's own store before a poll.",
+    "C18": " Added: re-broadcasts of known chains and chains sharing a proper prefix; timestamps far outside the window across the whole int64 range.",
+    "C19": " Added: invalid decisions reported for a past instance; decisions whose header claims another phase/round than the quorum signed; CertChain.Validate must accept chains built under the node's committee rule and reject a certificate signed by another instance's committee.",
+    "C20": " Added: slow-peer rounds (mock time passes while a request is held, sometimes past the interval): interval <= poll-to-poll <= max(interval, request) + min(request, interval/2); certificates stored locally while a request is in flight, judged against every admissible attribution of that progress to rounds.",
 }
